@@ -7,5 +7,6 @@ CONSTANTS
     MaxOps = 30
     MaxBlocks = 8
     MaxDepth = 3
+    RecordHist = TRUE
     MaxFail = 2
 CHECK_DEADLOCK FALSE
